@@ -182,7 +182,7 @@ def r03_1(ctx, rep, roles):
             same_entry = bool(nxt_k) and bool(nxt_v) and (nxt_k[0][1], nxt_k[0][3]) == (nxt_v[0][1], nxt_v[0][3])
             key_part = any(x[0] == "proj" and x[2] == F("<tuple>", "0") for x in T.subterms(k)) and not any(x[0] == "proj" and x[2] == F("<tuple>", "1") for x in T.subterms(k))
             okv = v[0] == "call" and v[1] == roles.node_digest["id"] and any(x[0] == "proj" and x[2] == F("<tuple>", "1") for x in T.subterms(v))
-            calls_k = {sym.strip_all_generics(x[1]).split("::")[-1] for x in T.subterms(k) if x[0] == "call"} - {"next", "iter", "into_iter", "clone"}
+            calls_k = {sym.strip_all_generics(x[1][6:] if x[1].startswith("havoc:") else x[1]).split("::")[-1] for x in T.subterms(k) if x[0] == "call"} - {"next", "iter", "into_iter", "clone"}
             n += 1
             via_state = T.mentions_field(k, NS, "chitchat_id") and any(x[0] == "proj" and x[2] == F("<tuple>", "1") for x in T.subterms(k))
             calls_k -= {"chitchat_id"}
